@@ -150,10 +150,9 @@ def validate_file(path, mode, scratch):
     return len(execs), rejections, states, skipped
 
 
-def run(prop, tier, seed):
-    t0 = time.time()
-    rep = vlib.Report(prop)
-    which = ["scan"] if prop == "C09" else ["point"] if prop == "C03" else ["point", "scan"]
+def validate_runs(prop, tier, seed, rep, which):
+    """Produce (or reuse) the executions of the scenario families in `which`, validate every
+    distinct history in mode `prop`, report rejections to rep; returns a coverage dict."""
     scratch = os.path.join(vlib.CACHE, "olc_val_%s_%d" % (prop, os.getpid()))
     shutil.rmtree(scratch, ignore_errors=True)
     os.makedirs(scratch)
@@ -182,7 +181,7 @@ def run(prop, tier, seed):
             with open(keep, "w") as fh:
                 fh.writelines(e)
             rep.violation("scenario %s schedule '%s': OlcTrace (mode %s) cannot explain event %d: %s"
-                          % (hdr.get("scenario"), hdr.get("sched"), prop, idx + 1, ev),
+                          % (hdr.get("scenario"), hdr.get("sched"), prop, idx + 1, ev[:700]),
                           {"scenario": hdr.get("scenario"), "schedule": hdr.get("sched"), "trace": keep, "event": ev,
                            "history": [x.strip() for x in e[:40]],
                            "replay_cmd": "TRACE=%s MODE=%s tlc -workers 1 -deadlock -config spec/cfg/OlcTrace/trace.cfg spec/OlcTrace.tla" % (keep, prop)})
@@ -190,14 +189,14 @@ def run(prop, tier, seed):
             ex = split_execs(f)
             if ex:
                 samples.append([x.strip() for x in ex[len(ex) // 2][:12]])
-    rc = rep.finish()
     executions = sum(j["executions"] for w in prod.values() for j in w["jobs"])
     abnormal = sum(j["abnormal"] for w in prod.values() for j in w["jobs"])
     per_kind = {}
     for w in prod.values():
         for j in w["jobs"]:
             per_kind[j["kind"]] = per_kind.get(j["kind"], 0) + j["executions"]
-    cov = {
+    shutil.rmtree(scratch, ignore_errors=True)
+    return {
         "states": states, "transitions": states,
         "traces_validated_against_impl": nexec,
         "samples": samples,
@@ -211,9 +210,16 @@ def run(prop, tier, seed):
         "histories_rejected": nrej,
         "rule": "every schedule with at most P preemptions per scenario (exhaustive within the bound, re-executed on the real code), plus seeded random schedules; identical histories are validated once",
     }
+
+
+def run(prop, tier, seed):
+    t0 = time.time()
+    rep = vlib.Report(prop)
+    which = ["scan"] if prop == "C09" else ["point"] if prop == "C03" else ["point", "scan"]
+    cov = validate_runs(prop, tier, seed, rep, which)
+    rc = rep.finish()
     vlib.write_evidence(prop, tier, seed, "model_checking", cov,
                         vlib.ASSUME_COMMON + ["preemption bound and scenario catalogue as listed; protected-field segments are atomic in the bounded search (field-granular in the random runs)",
                                               "uint64 keys only in concurrent scenarios"],
                         time.time() - t0, len(rep.violations))
-    shutil.rmtree(scratch, ignore_errors=True)
     return rc
